@@ -32,6 +32,7 @@ static uint8 PAT[256];
    finding is identified by the history that produces it */
 static char g_ctx[64];
 static int  g_kind[8]; /* storage kind of element (ETAG,r): 0 absent/plain, 1 linked, 2 external, 3 compressed */
+static int  g_clen[8]; /* bytes held by a compressed element */
 static void
 viol(const char *sig, const char *fmt, ...)
 {
@@ -634,6 +635,8 @@ enum_ops(mc_op *out, int max)
     for (int r = 1; r <= 2; r++) {
         ADD(OP_PUT, r, 5);
         ADD(OP_PUT, r, 9);
+        if (g_kind[r] == 3)
+            ADD(OP_PUT, r, 15); /* longer than what the compressed element holds */
         if (elem_exists(r)) {
             ADD(OP_DEL, r, 0);
             ADD(OP_APPEND, r, 6);
@@ -697,19 +700,22 @@ apply(const mc_op *op)
     g_nops++;
     switch (op->code) {
         case OP_PUT:
-            if (g_kind[a0] == 3)
-                snprintf(g_ctx, sizeof g_ctx, "rewrite-of-compressed-element");
+            if (g_kind[a0] == 3) /* the compressed elements of this alphabet hold 12 bytes */
+                snprintf(g_ctx, sizeof g_ctx, a1 < g_clen[a0] ? "rewrite-of-compressed-element-with-fewer-bytes" : "rewrite-of-compressed-element-with-more-bytes");
             if (Hputelement(fid, ETAG, (uint16)a0, PAT + g_nops, a1) != a1) {
                 /* replacing a special element with Hputelement is allowed to be refused */
                 if (elem_exists(a0))
                     return 2;
                 return fail_op(op, "Hputelement");
             }
+            if (g_kind[a0] == 3 && a1 > g_clen[a0])
+                g_clen[a0] = a1;
             break;
         case OP_DUP:
             if (Hdupdd(fid, ETAG, (uint16)a1, ETAG, (uint16)a0) == FAIL)
                 return fail_op(op, "Hdupdd");
             g_kind[a1] = g_kind[a0];
+            g_clen[a1] = g_clen[a0];
             break;
         case OP_DEL:
             if (Hdeldd(fid, ETAG, (uint16)a0) == FAIL)
@@ -755,11 +761,12 @@ apply(const mc_op *op)
             }
             Hendaccess(aid);
             g_kind[a0] = 3;
+            g_clen[a0] = 12;
             break;
         }
         case OP_APPEND:
             if (g_kind[a0] == 3)
-                snprintf(g_ctx, sizeof g_ctx, "rewrite-of-compressed-element");
+                snprintf(g_ctx, sizeof g_ctx, "append-to-compressed-element");
             aid = Hstartaccess(fid, ETAG, (uint16)a0, DFACC_RDWR);
             if (aid == FAIL)
                 return fail_op(op, "Hstartaccess");
@@ -772,6 +779,8 @@ apply(const mc_op *op)
             Hendaccess(aid);
             if (rc != a1)
                 return 2;
+            if (g_kind[a0] == 3)
+                g_clen[a0] += a1;
             break;
         case OP_VS: {
             int32 vs = VSattach(fid, -1, "w");
@@ -1045,6 +1054,7 @@ prologue(void)
     g_since = MC_H0;
     g_ctx[0] = 0;
     memset(g_kind, 0, sizeof g_kind);
+    memset(g_clen, 0, sizeof g_clen);
     if (open_session(1))
         return -1;
     if (g_start == 1) {
